@@ -22,7 +22,38 @@ pub struct Langs {
     pub script: Script,
 }
 
+pub const CODES: [&str; 7] = ["en", "fr", "es", "pt", "it", "de", "nl"];
+
 impl Langs {
+    /// Same set of interpreters, but constructed in the given order (codes not named come last, in the
+    /// default order). Construction order must not matter (C14); the `threads` mode varies it.
+    pub fn new_ordered(first: &[&str]) -> Self {
+        let mut order: Vec<&str> = first.iter().copied().filter(|c| CODES.contains(c)).collect();
+        for c in CODES.iter() {
+            if !order.contains(c) {
+                order.push(c);
+            }
+        }
+        let (mut en, mut fr, mut es, mut pt, mut it, mut de, mut nl) = (None, None, None, None, None, None, None);
+        let mut fac: Vec<(&'static str, Language)> = Vec::new();
+        for c in order {
+            match c {
+                "en" => { en = Some(English::new()); fac.push(("en", Language::english())); }
+                "fr" => { fr = Some(French::new()); fac.push(("fr", Language::french())); }
+                "es" => { es = Some(Spanish::new()); fac.push(("es", Language::spanish())); }
+                "pt" => { pt = Some(Portuguese::new()); fac.push(("pt", Language::portuguese())); }
+                "it" => { it = Some(Italian::new()); fac.push(("it", Language::italian())); }
+                "de" => { de = Some(German::new()); fac.push(("de", Language::german())); }
+                _ => { nl = Some(Dutch::new()); fac.push(("nl", Language::dutch())); }
+            }
+        }
+        Langs {
+            en: en.unwrap(), fr: fr.unwrap(), es: es.unwrap(), pt: pt.unwrap(), it: it.unwrap(), de: de.unwrap(), nl: nl.unwrap(),
+            fac,
+            script: Script,
+        }
+    }
+
     pub fn new() -> Self {
         Langs {
             en: English::new(),
